@@ -15,7 +15,7 @@ from common import REPO, WORK
 SUFFIX = os.environ.get("VERIF_KANI_TARGET_SUFFIX", "")
 MIR_DIR = os.path.join(WORK, "mir" + SUFFIX)
 POOL_PROPS = {"C01", "C02", "C09", "C10", "C13", "C20"}
-MIR_PROPS = POOL_PROPS | {"C06", "C15", "C08", "C03", "C04", "C14", "C05", "C11"}
+MIR_PROPS = POOL_PROPS | {"C06", "C15", "C08", "C03", "C04", "C14", "C05", "C11", "C19"}
 
 
 def source_hash():
@@ -136,6 +136,10 @@ INCLUDE = {
     "C03": [("C06", "c06_cache_lookup", None), ("C14", "c14_roundtrip", None)],
     # "every response parses as a DNS message": the encoder's output is accepted by the decoder and by the reference decoder
     "C04": [("C14", "c14_roundtrip", ("encoding then decoding never panics", "the decoder accepts what the encoder produced", "independent RFC 1035 decoder"))],
+    # YAML -> Interface: null suppresses, values recorded as configured (the loader half of "exactly the configured values")
+    "C17": [("C19", "c19_radv_interface", ("`", "a configured", "an absent", "dns-search lifetime", "dns-servers lifetime", "an accepted hop-limit", "managed flag", "other flag", "reachable is", "retransmit is"))],
+    # apply-range / apply-subnet / apply-address expand to exactly the documented address set
+    "C02": [("C19", "c19_dhcp_policy", ("apply-range hands out", "apply-subnet hands out", "apply-address hands out", "a policy with apply-range"))],
 }
 
 
@@ -221,6 +225,44 @@ def _run_property(pid, tier, seed, logdir):
         except (Unsupported, Unwind) as e:
             obligations.append(dict(name="c06_cache_wrapper_key_and_gate", engine="mirsym", functions=[], bounds="", oracle="", stubs=[], tier=tier,
                                     verdict="inconclusive", reason=f"outside the encoder's subset: {e}", queries=0, solver_time_s=0, failed=[]))
+        return obligations
+    if pid == "C19":
+        from mirsym import props_config, enums as _en
+        structs = _en.scan_structs(REPO)
+        jobs = []
+        cstubs = ["yaml_rust::Yaml values built directly (the YAML text scanner of the yaml-rust crate is not executed); LinkedHashMap = ordered list of (key, value); variant order read from the crate source",
+                  "integers = arbitrary i64; addresses = canonical dotted-quad text of an arbitrary 32-bit value (str::parse and ToString mutually inverse), prefixes = such text + '/<concrete length>'",
+                  "format! / error texts = constant text; Duration * u32 and / u32 as in std (overflow = panic)"]
+
+        def cjob(name, thunk, bounds, oracle):
+            def job():
+                t0 = time.time()
+                try:
+                    failed, ex, npaths, kinds = thunk()
+                    for f in failed:
+                        f["check"] = name
+                    return dict(name=name, engine="mirsym", functions=sorted(f.split("::")[-1] for f in ex.encoded_fns), bounds=bounds, oracle=oracle,
+                                stubs=cstubs + sorted(ex.used_summaries), tier=tier, **_vr(failed, ex), queries=ex.queries, solver_time_s=round(ex.solver_time, 2),
+                                failed=_dedup(failed), paths=npaths, path_kinds={str(k): v for k, v in kinds.items()}, wall_s=round(time.time() - t0, 1))
+                except (Unsupported, Unwind) as e:
+                    return dict(name=name, engine="mirsym", functions=[], bounds=bounds, oracle=oracle, stubs=cstubs, tier=tier, verdict="inconclusive",
+                                reason=f"outside the encoder's subset: {e}", queries=0, solver_time_s=0, failed=[])
+            return (name, job)
+        for sname, keys, nulls in props_config.interface_shapes(tier):
+            jobs.append(cjob("c19_radv_interface_" + sname, (lambda keys=keys, nulls=nulls: props_config.interface_obligation(prog, en, structs, keys, nulls)),
+                             "radv::config::parse_interface (+ parse_duration, parse_num, parse_boolean, parse_dnssl, parse_rdnss, parse_array, parse_pref64, ConfigValue::from_option) from MIR on an interface "
+                             "section with the keys %s in this order (null: %s); every integer value symbolic over all of i64, booleans symbolic" % (keys, list(nulls)),
+                             "Ok or Err, never a panic/overflow; accepted intervals within their documented bounds (max 4..=1800 s, min >= 3 s, min <= 3/4 max); null => 'do not send', value => recorded as configured, absent => not specified"))
+        spans = [("range", 3), ("range_rev", 2), ("address", 0), ("subnet", 30), ("subnet", 31), ("subnet", 32), ("subnet", 33)]
+        if tier == "thorough":
+            spans += [("range", 8), ("subnet", 28), ("subnet", 29), ("subnet", 40)]
+        for kind, span in spans:
+            jobs.append(cjob("c19_dhcp_policy_%s_%d" % (kind, span), (lambda kind=kind, span=span: props_config.policy_obligation(prog, en, structs, kind, span)),
+                             "dhcp::config::Config::parse_policy (+ parse_subnet, parse_string_ip4, str_ip*) from MIR on a policy with %s; addresses symbolic over all 2^32 values" % (
+                                 {"range": "apply-range {start, end} with end - start <= %d (end = 255.255.255.255 included)" % span, "range_rev": "apply-range {end, start} with end - start <= %d" % span,
+                                  "address": "apply-address", "subnet": "apply-subnet <any address>/%d" % span}[kind]),
+                             "Ok or Err, never a panic/overflow; apply-range = [start, end] both ends included; apply-subnet = every address strictly between network and broadcast; prefix lengths > 32 refused"))
+        obligations.extend(run_jobs(jobs))
         return obligations
     if pid == "C11":
         from mirsym import props_policy, enums as _en
